@@ -1294,17 +1294,27 @@ def phase_ref(ctx):
                               {"label": label, "counts_head": counts[:5], "counts_tail": counts[-5:]})
                 continue
             # allocated-block drift, second pass with fresh sentinels each iteration
-            state = setup()
-            for it in range(30):
-                op(state, sf(10 ** 6 + it))
-            gc.collect()
-            b0 = sys.getallocatedblocks()
             M = 1000
-            for it in range(M):
-                op(state, sf(it % 7))
-            gc.collect()
-            drift = sys.getallocatedblocks() - b0
+
+            def measure():
+                state = setup()
+                for it in range(30):
+                    op(state, sf(10 ** 6 + it))
+                gc.collect()
+                b0 = sys.getallocatedblocks()
+                for it in range(M):
+                    op(state, sf(it % 7))
+                gc.collect()
+                return sys.getallocatedblocks() - b0
+
+            drift = measure()
             ctx.count("drift_experiments")
+            if drift >= 0.25 * M:
+                # a leak per call reproduces on every repetition; a one-off growth of an
+                # interpreter-level cache or free list (seen once as +321 blocks on the healthy
+                # tree) does not: the verdict is the smallest of four measurements
+                ctx.count("drift_experiments_repeated")
+                drift = min([drift] + [measure() for _ in range(3)])
             if drift >= 0.25 * M:
                 ctx.violation("blocks/leak/%s" % label.split("<-")[0],
                               "allocated blocks grew by %d over %d repetitions of %r (>= 0.25/iteration)"
